@@ -603,6 +603,9 @@ class Frames:
                     if isinstance(rv, int) and rv < 3 and isinstance(hi, int) and hi <= 3:
                         # row k of the rotation a->b  ==  column k of its transpose: axis k of frame b expressed in frame a
                         return Vec(b.a, "D")
+                    if rv is None and isinstance(el[0], (ast.Name, ast.List, ast.Tuple)) and isinstance(hi, int) and hi <= 3:
+                        # rows selected by an index variable / an index list (`pose[js, :3]`): still rows of the rotation, i.e. directions of frame a
+                        return Vec(b.a, "D", rows=not isinstance(el[0], ast.Name) or None)
                     return None
                 if len(el) == 3:
                     # mesh2origin[np.newaxis, :3, 3]
